@@ -852,7 +852,6 @@ SINK_RX = [
     (re.compile(r'//go:wasmexport[ \t]+(\S+)'), "export"),
 ]
 FRAGMENT = re.compile(r'^(\[[a-z][a-z0-9+-]*\])+[^\s"]*$|^cabi_post_[^\s"]*$|^[^\s"]*#\[dtor\][^\s"]*$')
-STANDALONE = re.compile(r'^(\[[a-z][a-z0-9+-]*\])+(\$[a-z]+)?$|^\$[a-z]+$')
 
 
 class Seg:
@@ -1114,11 +1113,11 @@ def r13_2(rep, be, segs, concats, ev, V, wit_prefixes, uniq):
                            "nowhere in the crate: dead declaration, outside the property", s.loc(), nontrivial=False)
                     continue
                 rep.ob("R13.2", uniq(f"{s.ident()} marker {shown}"), ok, why, s.loc())
-            # wrappers are only stripped at the very start of a name
+            # wrappers are only stripped at the very start of a name (after another wrapper or unknown holes)
             if g in (V.async_lower, V.cancellable, V.export_prefix) and s.role in ("import", "module", "export", "fragment"):
-                rep.ob("R13.2", uniq(f"{s.ident()} wrapper {g} leads the name"), m.start() == 0 or
-                       text[:m.start()] in (V.async_lower, V.cancellable) or
-                       all(text[x] == "{" for x in [0]) and re.fullmatch(r"(\{[^{}]*\})+", text[:m.start()]) is not None,
+                before = text[:m.start()]
+                leads = before in ("", V.async_lower, V.cancellable) or re.fullmatch(r"(\{[^{}]*\})+", before) is not None
+                rep.ob("R13.2", uniq(f"{s.ident()} wrapper {g} leads the name"), leads,
                        "the encoder strips this wrapper only as a prefix", s.loc(), nontrivial=m.start() != 0)
         # ---- hole-free intrinsic names: the whole name must be one the encoder classifies
         if s.role == "import" and not s.holes and text.startswith("["):
@@ -1243,9 +1242,6 @@ def r13_5_templates(rep, be, segs, ev, V, uniq):
         n += 1
         rep.ob("R13.5", uniq(f"{s.ident()} imported from an {V.export_prefix} module"), ok, why, s.loc())
     return n
-
-
-EXPORT_FN_HINT = {"cabi_realloc"}
 
 
 def r13_3(rep, be, B, segs, ev, V, uniq):
@@ -1555,7 +1551,8 @@ def run(rep, tier):
         "export site; (R13.5) export-only intrinsics are imported from an `[export]` module. NOT decided: core "
         "signatures, that every export the world requires is generated, values whose origin is a struct field, a "
         "trait-method parameter or a loop variable (reported as unknown, never as violations), which imports the "
-        "target language's linker keeps.",
+        "target language's linker keeps (an unrecognised import name whose declared symbol is referenced nowhere in "
+        "the crate is reported as information: the property speaks of imports the generated code references).",
         trusted_base=["syn parse of the generator sources", "wit-component validation.rs (`impl NameMangling for "
                       "Legacy`) and wit-parser resolve/mod.rs read from the cargo registry on every run",
                       "tail grammars of the encoder's three prefix parsers transcribed in Vocab.TAILS"],
